@@ -266,21 +266,37 @@ def ir_resolves(schemas):
 
 
 def ir_alias_acyclic(schemas):
-    """no object is (transitively) an alias of itself: such a type denotes nothing"""
-    alias = {}
+    """no object is, without passing through a struct field / array element / map value, defined by itself:
+    `A: ref A`, `A: ref B, B: ref A`, `A: A | B` denote nothing (and validators loop on them)"""
+    edges = {}
+
+    def unguarded(t, out):
+        k = t.get("k")
+        if k == "ref":
+            out.append((t.get("pkg"), t.get("name")))
+        elif k in ("disj", "inter"):
+            for b_ in t.get("branches") or []:
+                unguarded(b_, out)
+
     for s in schemas:
         for o in s["objects"]:
-            t = o["type"]
-            if t.get("k") == "ref":
-                alias[(s["pkg"], o["name"])] = (t.get("pkg"), t.get("name"))
-    for start in alias:
-        cur, seen = start, set()
-        while cur in alias:
-            if cur in seen:
+            out = []
+            unguarded(o["type"], out)
+            edges[(s["pkg"], o["name"])] = out
+    state = {}
+
+    def visit(n):
+        if state.get(n) == 1:
+            return False
+        if state.get(n) == 2 or n not in edges:
+            return True
+        state[n] = 1
+        for m in edges[n]:
+            if not visit(m):
                 return False
-            seen.add(cur)
-            cur = alias[cur]
-    return True
+        state[n] = 2
+        return True
+    return all(visit(n) for n in list(edges))
 
 
 def ir_names_unique(schemas):
